@@ -11,6 +11,56 @@ func init() {
 	vRegister("H_C05_vacuity", H_C05_vacuity)
 }
 
+// refMasterSyntax: an independent reading of RFC 1035 section 5.1 lexical syntax: the text consists of printable
+// ASCII and tabs only; a backslash is followed by three decimal digits (value <= 255) or by one printable character;
+// double quotes and parentheses are balanced; no comment starts outside a quoted string; nothing is left open at
+// the end. (What the tokens mean is the parser's business; this only says that any RFC 1035 reader can split the
+// text the same way.)
+func refMasterSyntax(text string) bool {
+	inQuote := false
+	depth := 0
+	for i := 0; i < len(text); i++ {
+		c := text[i]
+		if c != '\t' && (c < 0x20 || c > 0x7E) {
+			return false
+		}
+		switch {
+		case c == '\\':
+			if i+1 >= len(text) {
+				return false
+			}
+			n := text[i+1]
+			if n >= '0' && n <= '9' {
+				if i+3 >= len(text) || !(text[i+2] >= '0' && text[i+2] <= '9') || !(text[i+3] >= '0' && text[i+3] <= '9') {
+					return false
+				}
+				if int(n-'0')*100+int(text[i+2]-'0')*10+int(text[i+3]-'0') > 255 {
+					return false
+				}
+				i += 3
+			} else {
+				if n < 0x21 || n > 0x7E {
+					return false
+				}
+				i++
+			}
+		case c == '"':
+			inQuote = !inQuote
+		case inQuote:
+		case c == ';':
+			return false
+		case c == '(':
+			depth++
+		case c == ')':
+			depth--
+			if depth < 0 {
+				return false
+			}
+		}
+	}
+	return !inQuote && depth == 0
+}
+
 // vC05Reparse: String() of rr is accepted by the zone parser and packs to exactly w.
 func vC05Reparse(rr RR, w []byte, t uint16) {
 	// known findings (regions of the input space, see known_findings.json)
@@ -37,6 +87,7 @@ func vC05Reparse(rr RR, w []byte, t uint16) {
 	}
 	text := rr.String()
 	vReach("printed")
+	vAssertExcept(refMasterSyntax(text), "text-uses-only-rfc1035-master-file-syntax", x25raw, "C05-x25-raw-text")
 	rr2, err := NewRR(text)
 	vObserve("reparse", t, len(text), err)
 	if vParam("debug.text", 0) == 1 {
